@@ -239,4 +239,95 @@ theorem failContent_unchanged (F : File) (B : List BHdr) (Fl : List Nat) (hB : B
   simp only [failContentOk, hu, e3, e4, Nat.sub_self, List.take_zero, List.append_nil, beq_self_eq_true, hle,
     Nat.le_refl, decide_true, Bool.or_true, Bool.true_or, Bool.and_self]
 
+/-! ### sampled agreement and prefixes of the appended part -/
+
+theorem connected_take : ∀ (n : Nat) (l : List BHdr), connected l = true → connected (l.take n) = true
+  | 0, _, _ => rfl
+  | _ + 1, [], _ => rfl
+  | _ + 1, [_], _ => by simp [connected]
+  | 0 + 1, _ :: _ :: _, _ => by simp [connected]
+  | n + 1 + 1, x :: y :: rest, h => by
+    simp only [connected, Bool.and_eq_true] at h
+    have ih := connected_take (n + 1) (y :: rest) h.2
+    simp only [List.take_succ_cons] at ih ⊢
+    simp only [connected, Bool.and_eq_true]
+    exact ⟨h.1, ih⟩
+
+theorem all_take {α : Type} (p : α → Bool) (l : List α) (n : Nat) (h : l.all p = true) : (l.take n).all p = true := by
+  rw [List.all_eq_true] at h ⊢
+  intro x hx
+  exact h x (List.mem_of_mem_take hx)
+
+/-- the oracle's sampled-agreement clause is what `validateChainContinuity` checks -/
+theorem sample_of_continuity (F : File) (B : List BHdr) (Fl : List Nat) (hB : B.length ≥ 1) (hF : Fl.length ≥ 1)
+    (hne : F.blocks.length ≥ 1) (hc : continuity F (mk B Fl) = none) : sampleOk (obsOf (mk B Fl)) F = true := by
+  have e3 : (obsOf (mk B Fl)).blocks = B := rfl
+  have e4 : (obsOf (mk B Fl)).filters = Fl := rfl
+  have hag : ∀ h, agreeAt (obsOf (mk B Fl)) F h = verifyAt F (mk B Fl) .both h := fun _ => rfl
+  unfold sampleOk
+  simp only [e3, e4, hag]
+  by_cases hs : F.bstart ≤ min (B.length - 1) (Fl.length - 1)
+  · simp only [hs, ↓reduceIte, Bool.and_eq_true]
+    have hfacts := (continuity_overlap_iff F (mk B Fl) (B.length - 1) (Fl.length - 1)
+      (bChainTip_mk B Fl hB) (fChainTip_mk B Fl hF) hs).mp hc
+    unfold overlapFacts at hfacts
+    refine ⟨hfacts.1, ?_⟩
+    by_cases hgt : min (min (B.length - 1) (Fl.length - 1)) (endHeight F) > F.bstart
+    · exact hfacts.2.1 hgt
+    · have : min (min (B.length - 1) (Fl.length - 1)) (endHeight F) = F.bstart := by
+        unfold endHeight at hgt ⊢; omega
+      rw [this]; exact hfacts.1
+  · simp only [hs, ↓reduceIte]
+
+/-- `chain_level_zero` for a prefix of what would be appended (an import that
+stops after some batches) -/
+theorem chain_level_zero_take (F : File) (bs : Nat) (B : List BHdr) (Fl : List Nat) (j : Nat)
+    (hs : F.bstart = 0) (hl : B.length ≥ 1) (heq : B.length = Fl.length)
+    (hc : continuity F (mk B Fl) = none) (hv : validateBlocks F.blocks bs = true) :
+    ((F.blocks.drop B.length).take j).all (·.valid) = true ∧
+    (connected B = true → connected (B ++ (F.blocks.drop B.length).take j) = true) := by
+  have hpairs := validateBlocks_pairsOk _ _ hv
+  have hvalid : (F.blocks.drop B.length).all (·.valid) = true := by
+    have : F.blocks.drop B.length = (F.blocks.drop 1).drop (B.length - 1) := by
+      rw [List.drop_drop]; congr 1; omega
+    rw [this]
+    exact all_drop _ _ _ (pairsOk_tail_valid _ hpairs)
+  refine ⟨all_take _ _ _ hvalid, fun hcb => ?_⟩
+  cases hD : F.blocks.drop B.length with
+  | nil => rw [List.take_nil, List.append_nil]; exact hcb
+  | cons c D =>
+    cases j with
+    | zero => rw [List.take_zero, List.append_nil]; exact hcb
+    | succ j =>
+      rw [List.take_succ_cons]
+      have hcD : connected (c :: D.take j) = true := by
+        have : connected ((c :: D).take (j + 1)) = true := by
+          rw [← hD]; exact connected_take _ _ (connected_drop _ _ (pairsOk_connected _ hpairs))
+        rwa [List.take_succ_cons] at this
+      have hca : F.blocks[B.length]? = some c := by
+        have := congrArg (fun l => l[0]?) hD
+        simpa [List.getElem?_drop] using this
+      have hlt : B.length < F.blocks.length := by
+        rcases Nat.lt_or_ge B.length F.blocks.length with h | h
+        · exact h
+        · rw [List.drop_eq_nil_of_le h] at hD; simp at hD
+      have hfacts := (continuity_overlap_iff F (mk B Fl) (B.length - 1) (Fl.length - 1)
+        (bChainTip_mk B Fl hl) (fChainTip_mk B Fl (by omega)) (by omega)).mp hc
+      unfold overlapFacts at hfacts
+      have hoe : min (min (B.length - 1) (Fl.length - 1)) (endHeight F) = B.length - 1 := by
+        unfold endHeight; omega
+      rw [hoe] at hfacts
+      have hconn := hfacts.2.2 (by unfold endHeight; omega)
+      unfold connects at hconn
+      have h1 : B.length - 1 + 1 - F.bstart = B.length := by omega
+      rw [h1, hca] at hconn
+      have hBm : (mk B Fl).blocks = B := rfl
+      rw [hBm] at hconn
+      cases hp : B[B.length - 1]? with
+      | none => rw [hp] at hconn; simp at hconn
+      | some p =>
+        rw [hp] at hconn
+        simp only [beq_iff_eq] at hconn
+        exact connected_append_cons B p c (D.take j) hcb (by rw [List.getLast?_eq_getElem?]; exact hp) hconn hcD
+
 end Neutrino.Import
